@@ -347,6 +347,18 @@ add("C01", "X-fold-true-copy-decider", "fixed",
            [{"in1": 5, "in2": 0}, {"in1": 7, "in2": -2}]), commit="dd1c5f3")
 
 
+add("C15", "X-true-copy-decider-kept", "fixed",
+    "f1(8, in1, 8) with body 'Signal w = p0 * p2; Signal t1 = p1 > p2; return w >= 7 : t1;' returned 0: the decider of a condition decided by constant propagation cannot compare two constants",
+    {"prog": Program((S("in1", "iron-plate", 5),
+        Func("f1", (("Signal", "p0"), ("Signal", "p1"), ("int", "p2")),
+             (Decl("Signal", "w", Bin("*", Ref("p0"), Ref("p2"))), Decl("Signal", "t1", Bin(">", Ref("p1"), Ref("p2"))),
+              Return(Cond(Bin(">=", Ref("w"), Num(7)), Ref("t1"))))),
+        Decl("Signal", "r1", Call("f1", (Num(8), Ref("in1"), Num(8)))))),
+     "prog2": Program((S("in1", "iron-plate", 5), Decl("Signal", "w_c1", Bin("*", Num(8), Num(8))), Decl("Signal", "t1_c1", Bin(">", Ref("in1"), Num(8))),
+        Decl("Signal", "r1", Cond(Bin(">=", Ref("w_c1"), Num(7)), Ref("t1_c1"))))),
+     "vals": [{"in1": 12}, {"in1": 3}], "optimize": True, "sched": {"seed": 0}, "opts": {}}, commit="a1251ad")
+
+
 def main():
     import importlib
 
